@@ -246,6 +246,9 @@ def subst_atom(a: Atom, old: Sym, new: Sym) -> Lin:
     if isinstance(a, Sym):
         return Lin.of(new if a.key == old.key else a)
     if isinstance(a, Slice):
+        if a.sym.key == old.key and isinstance(new, int):
+            v = new >> a.a
+            return Lin(v if a.b is None else v & ((1 << (a.b - a.a)) - 1))
         if a.sym.key == old.key:
             w = new.width()
             if a.b is None or (w is not None and a.b >= w):
@@ -1258,6 +1261,21 @@ class Interp:
                 if -len(base.segs) <= i < len(base.segs):
                     return base.segs[i].elem
                 raise _Raise(ExcV("IndexError", "list index out of range"), state)
+            if isinstance(idx, Lin) and idx.is_const() and idx.const >= 0 and not base.unknown and not base.stores:
+                # position k of a summarised list: walk the families (one binder each, positions 0..n-1 in order)
+                k = idx.const
+                for sg in base.segs:
+                    if not sg.binders:
+                        if k == 0:
+                            return sg.elem
+                        k -= 1
+                        continue
+                    if len(sg.binders) != 1 or sg.binders[0][0].lo != 0:
+                        break
+                    b, n = sg.binders[0]
+                    if k < n:
+                        return subst_value(sg.elem, b, k)
+                    k -= n
             return Unknown("index into summarised list")
         if isinstance(base, TupleV):
             if isinstance(idx, Lin) and idx.is_const() and -len(base.items) <= idx.const < len(base.items):
@@ -1398,6 +1416,12 @@ class Interp:
                     for s in args[0].segs:
                         recv.segs.append(Seg(s.elem, state.binders + s.binders))
                     return NONE
+                if f.attr == "extend" and len(args) == 1 and isinstance(args[0], RangeV):
+                    fams = self.families(args[0])
+                    if fams is not None:
+                        for el, bs in fams:
+                            recv.segs.append(Seg(el, state.binders + tuple(bs)))
+                        return NONE
                 recv.unknown = f"list method .{f.attr} not modelled"
                 return Unknown(f"list method .{f.attr}")
             if isinstance(recv, MapV):
